@@ -246,4 +246,18 @@ Proof.
            (fun k => nth k x zero) (fun k => nth k y zero)); auto.
 Qed.
 
+(* ---------- agreement of the two solvers, given soundness of solve_lu (package c02 proves it) ---------- *)
+Lemma solvers_agree_from_lu_sound (M : matrix A) (b x y : list A) :
+  (solve_lu M b = Ok y -> length y = rows M /\
+     forall i, (i < rows M)%nat -> mvprod (rows M) (ent M) (fun k => nth k y zero) i = nth i b zero) ->
+  wf M -> rows M = cols M -> length b = rows M ->
+  (exists N : nat -> nat -> A, left_inverse (rows M) N (ent M)) ->
+  solve_basic M b = Ok x -> solve_lu M b = Ok y -> x = y.
+Proof.
+  intros LU W Hsq Lb LI Ex Ey.
+  destruct (solve_basic_sound_lemma M b x W Hsq Lb Ex) as (Lx & Sx).
+  destruct (LU Ey) as (Ly & Sy).
+  apply (solutions_unique_lemma M b x y LI Lx Ly Sx Sy).
+Qed.
+
 End SolveProofs.
